@@ -8,8 +8,62 @@ ASSUMPTIONS = [
 ]
 
 
+def group_lifecycle(rng, tid):
+    """offsets of a consumer group end with the group; an individual consumer with the same number is a different key; a group created
+    later under the same number starts without a stored offset"""
+    g = rng.choice([1, 2, 7])
+    a, b = rng.randrange(0, 9), rng.randrange(0, 9)
+    cons = {"kind": "consumer", "id": g}
+    grp = {"kind": "group", "id": g}
+    base = {"stream": 1, "topic": 1, "partition": 1}
+    ops = [{"op": "create_stream", "name": "s", "id": 1}, {"op": "create_topic", "stream": 1, "name": "t", "parts": 1, "id": 1},
+           {"op": "send", "stream": 1, "topic": 1, "part": {"kind": "pid", "id": 1}, "msgs": [{"id": i, "len": 5} for i in range(1, 11)]},
+           {"op": "create_group", "stream": 1, "topic": 1, "name": "first", "id": g},
+           dict(base, op="store_offset", offset=a, consumer=cons), dict(base, op="store_offset", offset=b, consumer=grp)]
+    expect = {}
+    if rng.random() < 0.4:
+        ops.append({"op": "restart"})
+    ops.append({"op": "delete_group", "stream": 1, "topic": 1, "group": g})
+    if rng.random() < 0.4:
+        ops.append({"op": "restart"})
+    ops.append(dict(base, op="get_offset", consumer=cons))
+    expect[len(ops) - 1] = ("consumer", a)
+    ops.append({"op": "create_group", "stream": 1, "topic": 1, "name": "second", "id": g})
+    ops.append(dict(base, op="get_offset", consumer=grp))
+    expect[len(ops) - 1] = ("group", None)
+    ops.append(dict(base, op="get_offset", consumer=cons))
+    expect[len(ops) - 1] = ("consumer", a)
+    ops.append({"op": "restart"})
+    ops.append(dict(base, op="get_offset", consumer=grp))
+    expect[len(ops) - 1] = ("group", None)
+    ops.append(dict(base, op="get_offset", consumer=cons))
+    expect[len(ops) - 1] = ("consumer", a)
+    return {"id": tid, "cfg": {"req": rng.choice([1, 1000]), "cache": False}, "ops": ops}, expect
+
+
 def run(out, tier, seed, gate):
-    return partlib.check(out, tier, seed, "C07")
+    cov = partlib.check(out, tier, seed, "C07")
+    from vlib import harness, util
+    rng = util.Rng(seed * 70003 + 7)
+    n = 8 if tier == "quick" else 80
+    pairs = [group_lifecycle(rng, "C07-gl%d" % i) for i in range(n)]
+    impl = harness.run_traces("srv", [t for t, _ in pairs], shards=min(4, n))
+    reported = 0
+    for t, expect in pairs:
+        ob = impl[t["id"]]
+        outs = ob.get("outs", [])
+        for i, (kind, want) in sorted(expect.items()):
+            o = outs[i] if i < len(outs) else {"r": "missing"}
+            got = o.get("stored") if (o.get("r") == "ok" and o.get("some")) else None
+            if "crash" in ob or o.get("r") != "ok" or got != want:
+                if reported < 3:
+                    out.violation("group-lifecycle-%s-%d" % (t["id"], i), {"kind": "spec-monitor", "mode": "srv", "trace": t, "response": o, "expected": want,
+                                  "what": "after a consumer group was deleted (and one with the same number created), the stored offset of the %s with that number is %s, expected %s" % (kind, got, want)})
+                    reported += 1
+                break
+    if isinstance(cov, dict):
+        cov["group_lifecycle_traces"] = n
+    return cov
 
 
 def replay(payload):
